@@ -1,0 +1,46 @@
+//go:build verif
+// +build verif
+
+package raft
+
+// This file is only compiled with the "verif" build tag. It adds code only.
+//
+// VerifCommitGate runs the real commit() of this package up to (and not
+// including) its first attempt: a Consensus whose configuration allows no
+// attempt at all (CommitRetries = -1, which Config.Validate refuses for a
+// real component) goes through everything commit() does before its retry
+// loop - the LogOp as op() builds it, the tracing fields, the check that the
+// operation can be read back from its serialized form - and then skips the
+// loop. The result is the error commit() returns before attempting anything,
+// or nil when it would have gone on to redirectToLeader / CommitOp.
+//
+// The harness of property C01 uses it to decide which submitted operations
+// belong to the committed sequence at all (a refused operation is answered
+// with an error and never reaches the log). It does not name the check
+// itself, so that it keeps compiling - and simply lets everything through -
+// against a tree without that check.
+
+import (
+	"context"
+
+	"github.com/ipfs/ipfs-cluster/api"
+)
+
+// VerifCommitGate returns what commit() answers for the pin (LogOpPin) or
+// unpin (LogOpUnpin) of the given pin before its first attempt.
+func VerifCommitGate(pin *api.Pin, t LogOpType, tracing bool) error {
+	cfg := &Config{}
+	cfg.Default()
+	cfg.Tracing = tracing
+	cfg.CommitRetries = -1 // no attempt
+	cc := &Consensus{
+		ctx:    context.Background(),
+		config: cfg,
+	}
+	ctx := context.Background()
+	rpcOp := "LogPin"
+	if t == LogOpUnpin {
+		rpcOp = "LogUnpin"
+	}
+	return cc.commit(ctx, cc.op(ctx, pin, t), rpcOp, pin)
+}
